@@ -33,6 +33,8 @@ def _w(path, data, mtime):
 
 
 def _src_file(src, name):
+    if src.get('fuzzy') and name.upper().endswith('-MIB'):
+        name = name[:-4].lower()           # found only through the readers' "-MIB" guessing
     return os.path.join('deep' if src.get('sub') else '', name + src.get('ext', ''))
 
 
@@ -292,6 +294,8 @@ def gen_history(rng, tier):
         kind = rng.choice(['dir', 'dir', 'dir', 'zip', 'badzip'] if ns > 1 else ['dir', 'dir', 'zip'])
         src = {'kind': kind, 'strict': rng.random() < 0.5, 'holds': {}, 'sub': rng.random() < 0.25, 'ext': rng.choice(['', '', '.txt', '.mib']),
                'age': rng.choice([0, 1, 1000, 100000]), 'base': False}
+        if kind == 'dir' and rng.random() < 0.2:
+            src['fuzzy'] = True
         sources.append(src)
     holders_ok = [i for i, s in enumerate(sources) if s['kind'] != 'badzip']
     if not holders_ok:
@@ -326,6 +330,11 @@ def gen_history(rng, tier):
         for nm, p in (('noDeps', .12), ('rebuild', .35), ('genTexts', .25), ('ignoreErrors', .5)):
             if rng.random() < p:
                 op['options'][nm] = True
+        # options the command-line tools pass along with every call although compile() has no use for them
+        if rng.random() < 0.15:
+            op['options']['fuzzyMatching'] = rng.random() < 0.3
+        if rng.random() < 0.1:
+            op['options'][rng.choice(['lowcaseMatching', 'uppercaseMatching', 'originalMatching'])] = False
         if j and plain:
             for _ in range(rng.choice([0, 1, 1, 2])):
                 i, nm = rng.choice(plain)
